@@ -315,10 +315,10 @@ def run(ctx):
                     ctx.count('directed_prewired_cases')
                     check_expr(ctx, json.loads(json.dumps(tree)))
     rng = ctx.rng('random', ctx.shard)
-    for _ in range(ctx.pick(240, 9000) // ctx.nshards):
+    for _ in range(ctx.pick(240, 5000) // ctx.nshards):
         gen = exprgen.Gen(rng)
         expr = gen.expr(rng.choice([2, 3, 3, 4, 5, 6, 9]), depth=2)
-        if total_weight(expr) > ctx.pick(40, 80):  # ~1 s per unit on an idle core, several times that on a loaded machine
+        if total_weight(expr) > ctx.pick(40, 60):  # ~1 s per unit on an idle core, several times that on a loaded machine
             ctx.count('skipped_too_heavy')
             continue
         check_expr(ctx, expr)
